@@ -1577,6 +1577,14 @@ def rule_body(ctx):
         own = [c for c in it.conds if c[0] in ('match', 'if') and c[1] is not None and mode_of(c) is not None]
         other = [c for c in it.conds if c[0] in ('match', 'if') and c[1] is not None and c not in own and c[1][0] != 'tuple' and
                  any(f_.startswith('GraphQLClientCodegenOptions.') for f_ in TM.fields_in(c[1]))]
+        # conditions the whole module stands under (how the entry picked the operations) are not conditions of the struct:
+        # only what distinguishes it from the always-present items of the same module counts
+        always = [x for x in items if x.kind in ('impl', 'mod')]
+        if always:
+            shared = set(repr(c_) for c_ in always[0].conds)
+            for x in always[1:]:
+                shared &= set(repr(c_) for c_ in x.conds)
+            other = [c for c in other if repr(c) not in shared]
         modes = {'Cli', 'Derive'}
         for c in own:
             modes &= mode_of(c)
